@@ -27,7 +27,13 @@ cd /verif
 git -C /repo worktree remove --force $WT
 CHECKS="${CHECKS:-$ID}"
 OUT=""
-if [ $APPLIES = yes ] && git -C /repo diff --quiet; then
+if [ $APPLIES = yes ] && [ "${SCRATCH:-}" = 1 ]; then   # triage while /repo is in use: scratch copies, see scratch_eval.sh
+  for c in $CHECKS; do
+    o=$(tools/scratch_eval.sh $SRC/patch.diff $c 2>&1)
+    OUT="$OUT$c:$(echo "$o" | grep -o "rc=[0-9]*" | head -1)(scratch) "
+    echo "$o" | grep -E "what:|INFRA" | head -4 | cut -c1-300
+  done
+elif [ $APPLIES = yes ] && git -C /repo diff --quiet; then
   git -C /repo apply $SRC/patch.diff
   for c in $CHECKS; do
     o=$(./run.sh $c ${TIER:-quick} 2>&1); rc=$?
